@@ -3,6 +3,7 @@ import VyxalModel.Lemmas.LexLiteral
 import VyxalModel.Lemmas.Encoding
 import VyxalModel.Model.Transpile
 import VyxalModel.Gen.Codepage
+import VyxalModel.Lemmas.DictCompress
 /-!
 # C15 — compression and base-conversion codecs round-trip
 
@@ -17,7 +18,12 @@ import VyxalModel.Gen.Codepage
 * `string_compress_roundtrip`: same for `øc` and a non-empty lowercase-and-space string that does not
   start with a space.
 
-Dictionary compression (`øD`): the DP is validated by correspondence and the direct oracle only (partial).
+* `dict_compress_roundtrip`: dictionary compression `øD` — for every string over characters outside the compression
+  alphabet and without backslash (printable ASCII is: `printable_outside_compression`), every word list and every
+  `max_word_len`, the text the dynamic programme writes is read back by the decompressor as exactly the string, and it is
+  never longer than the string (`Lemmas/DictCompress.lean`: every cell of the DP table decodes to its prefix).  The one
+  fact about the 23 113-word list the kernel cannot evaluate (it is built with `String.splitOn`) — there are at most
+  `160²` words, so every code has two characters — is a hypothesis, checked on both sides on every run.
 -/
 namespace C15
 open Vy PyAst
@@ -214,5 +220,34 @@ theorem string_compress_roundtrip (s : Str) (hne : s ≠ []) (hs : ∀ c ∈ s, 
   · simp [transpileToken, uncompressStr, h1, h2, hdec, hrt]
 
 example : toAlphabet Gen.base27 (fromDigits 27 [8, 9]) = [104, 105] := by decide +kernel   -- "hi"
+
+/-! ## dictionary compression -/
+
+theorem compression_alphabet :
+    Gen.compression.length = 160 ∧ nodupB Gen.compression = true ∧ Gen.compression.head? = some 955 ∧
+      Gen.compression.contains cBS = false := by decide +kernel
+
+theorem printable_outside_compression :
+    ((List.range 127).filter (fun c => decide (32 ≤ c) && decide (c ≤ 126))).all (fun c => !Gen.compression.contains c) = true := by
+  decide +kernel
+
+/-- **`øD` round-trips and never lengthens** — every string `lhs` whose characters are outside the compression alphabet and
+    are not backslashes, every word list of at most `160²` words, every `max_word_len`, every small dictionary -/
+theorem dict_compress_roundtrip (small contents : List Str) (maxLen : Nat) (hlen : contents.length ≤ 160 * 160)
+    (lhs : Str) (hl : ∀ c ∈ lhs, Gen.compression.contains c = false ∧ c ≠ cBS) :
+    uncompressDict Gen.compression small contents (optimalCompressBody Gen.compression contents maxLen lhs) = lhs ∧
+    (optimalCompressBody Gen.compression contents maxLen lhs).length ≤ lhs.length := by
+  obtain ⟨hL, hnd, h0, hbs⟩ := compression_alphabet
+  have hn : Gen.compression.Nodup := nodupB_sound _ hnd
+  have hgood := (dpTable_good Gen.compression small contents hn h0 (by rw [hL]; omega) (by rw [hL]; exact hlen) hbs maxLen lhs hl
+    lhs.length (Nat.le_refl _)).2 lhs.length (Nat.le_refl _)
+  unfold optimalCompressBody
+  refine ⟨?_, hgood.2⟩
+  have := uncompress_of_dec Gen.compression small contents hgood.1
+  rw [this, List.take_length]
+
+/-- non-vacuity: a small word list, `"a the b"` → `a ` + code of `the` + ` b` -/
+example : optimalCompressBody Gen.compression [[116, 104, 101], [97, 110]] 3 [97, 32, 116, 104, 101, 32, 98] =
+    [97, 32, 955, 955, 32, 98] := by decide +kernel
 
 end C15
